@@ -100,6 +100,7 @@ type c14Op struct {
 	Exclusive bool     // the request starts an exclusive change (must find the system quiet: model-only expectation)
 	All       bool     // refresh of all snaps: conflicting snaps are skipped instead of failing the request
 	Stale     string   // stale-record scenario: what the store callback does while the state is unlocked
+	Scene     string   // refresh requests: what the snap-declarations / the store say at request time (c14Scenes), "" = nothing new
 	Leaf      bool     // states reached through this request are not expanded further
 	Thorough  bool     // only in the thorough tier
 }
@@ -120,6 +121,7 @@ func c14Menu(thorough bool) []c14Op {
 		{Name: "update-many(A,B)", Targets: []string{c14A, c14B}, Kind: "refresh-snap"},
 		{Name: "remove-many(A,B)", Targets: []string{c14A, c14B}, Kind: "remove-snap"},
 		{Name: "refresh-all", Kind: "refresh-snap", All: true},
+		{Name: "auto-refresh", Kind: "auto-refresh", All: true},
 		{Name: "connect(A,B)", Targets: []string{c14A, c14B}, Kind: "connect-snap"},
 		{Name: "disconnect(A,B)", Targets: []string{c14A, c14B}, Kind: "disconnect-snap"},
 		{Name: "update(snapd)", Targets: []string{c14Snapd}, Kind: "refresh-snap"},
@@ -142,6 +144,25 @@ func c14Menu(thorough bool) []c14Op {
 		{Name: "exclusive(remove-recovery-system)", Kind: "remove-recovery-system", Exclusive: true, Thorough: true},
 		{Name: "update-many(A,B)/stale:A-changed", Targets: []string{c14A, c14B}, Kind: "refresh-snap", Stale: "mutA", Leaf: true, Thorough: true},
 	}
+	// every request that ends in doUpdate, in every auto-alias scene (see c14Scenes): the snap-declarations that
+	// the refresh fetched differ from the aliases recorded in the state
+	for _, base := range []string{"refresh-all", "auto-refresh", "update(A)", "update(B)", "update-many(A,B)"} {
+		for _, o := range all {
+			if o.Name != base {
+				continue
+			}
+			for _, scene := range c14SceneNames {
+				v := o
+				v.Name = base + "@" + scene
+				v.Scene = scene
+				v.Thorough = c14Scenes[scene].Thorough
+				if !v.All {
+					v.Targets = c14TargetsInScene(o.Targets, scene)
+				}
+				all = append(all, v)
+			}
+		}
+	}
 	var ops []c14Op
 	for _, o := range all {
 		if o.Thorough && !thorough {
@@ -150,6 +171,87 @@ func c14Menu(thorough bool) []c14Op {
 		ops = append(ops, o)
 	}
 	return ops
+}
+
+// ---------------------------------------------------------------------------------------------------------
+// automatic aliases
+//
+// The state records for A, B and I one automatic alias each (c14StateAuto); snapstate.AutoAliases (the hook through
+// which snapstate reads the snap-declarations) answers from the world's current declaration table, which says the
+// same on the idle system: no delta. A refresh request issued "@scene" finds other declarations (a refresh fetches
+// the snap-declarations before anything else) and possibly a store without a newer revision of some snap; after
+// the request the table is back to the base one (issuing the same "@scene" request again is the case of a
+// declaration that stays changed; nothing runs here, so the recorded aliases never catch up).
+
+var c14StateAuto = map[string]map[string]string{
+	c14A: {"a-auto": "cmd1"},
+	c14B: {"b-auto": "cmd1"},
+	c14I: {"i-auto": "cmd1"},
+}
+
+type c14SceneDef struct {
+	Decl     map[string]map[string]string // snap -> alias -> app, as the snap-declarations say at request time
+	NoUpdate []string                     // the store has no newer revision of these (I never has one)
+	Thorough bool
+}
+
+var c14SceneNames = []string{"new", "drop", "move", "new/B-current", "drop/B-current"}
+
+var c14Scenes = map[string]c14SceneDef{
+	// every snap's declaration lists one more automatic alias
+	"new": {Decl: map[string]map[string]string{
+		c14A: {"a-auto": "cmd1", "a-new": "cmd1"}, c14B: {"b-auto": "cmd1", "b-new": "cmd1"}, c14I: {"i-auto": "cmd1", "i-new": "cmd1"}},
+		NoUpdate: []string{c14A}},
+	// every snap's declaration dropped the automatic alias
+	"drop": {Decl: map[string]map[string]string{c14A: {}, c14B: {}, c14I: {}}, NoUpdate: []string{c14A}},
+	// the automatic aliases moved round: A's to B, B's to I, I's to A (every snap is source and target of a transfer)
+	"move": {Decl: map[string]map[string]string{c14A: {"i-auto": "cmd1"}, c14B: {"a-auto": "cmd1"}, c14I: {"b-auto": "cmd1"}}},
+	"new/B-current": {Decl: map[string]map[string]string{
+		c14A: {"a-auto": "cmd1", "a-new": "cmd1"}, c14B: {"b-auto": "cmd1", "b-new": "cmd1"}, c14I: {"i-auto": "cmd1", "i-new": "cmd1"}},
+		NoUpdate: []string{c14B}, Thorough: true},
+	"drop/B-current": {Decl: map[string]map[string]string{c14A: {}, c14B: {}, c14I: {}}, NoUpdate: []string{c14B}, Thorough: true},
+}
+
+// c14AliasDelta is the harness's own reading of "automatic-alias delta" of a snap in a scene: aliases its
+// declaration lists and its state lacks (gained), automatic aliases of its state the declaration no longer lists (lost).
+func c14AliasDelta(name, scene string) (gained, lost []string) {
+	decl, ok := c14Scenes[scene].Decl[name]
+	if !ok {
+		decl = c14StateAuto[name]
+	}
+	for a, app := range decl {
+		if c14StateAuto[name][a] != app {
+			gained = append(gained, a)
+		}
+	}
+	for a := range c14StateAuto[name] {
+		if decl[a] == "" {
+			lost = append(lost, a)
+		}
+	}
+	sort.Strings(gained)
+	sort.Strings(lost)
+	return gained, lost
+}
+
+// c14TargetsInScene: a named refresh of X also operates on the snaps an automatic alias of which moves to X (the
+// alias has to be pruned there first: a prune-auto-aliases task for that snap is part of the refresh).
+func c14TargetsInScene(targets []string, scene string) []string {
+	out := append([]string(nil), targets...)
+	for _, t := range targets {
+		gained, _ := c14AliasDelta(t, scene)
+		for _, a := range gained {
+			for _, other := range []string{c14A, c14B, c14I} {
+				_, lost := c14AliasDelta(other, scene)
+				if _, hit := c14Intersects([]string{a}, lost); hit {
+					if _, have := c14Intersects([]string{other}, out); !have {
+						out = append(out, other)
+					}
+				}
+			}
+		}
+	}
+	return out
 }
 
 // kinds of pre-existing changes (roots): the exclusive kinds that are not started through a request function of
@@ -166,7 +268,8 @@ var c14ExemptKinds = map[string]bool{"pre-download": true, "become-operational":
 
 type c14Store struct {
 	*fakeStore
-	hook func()
+	hook     func()
+	noUpdate map[string]bool // scene: the store has no newer revision of these snaps
 }
 
 func (s *c14Store) SnapAction(ctx context.Context, currentSnaps []*store.CurrentSnap, actions []*store.SnapAction, assertQuery store.AssertionQuery, user *auth.UserState, opts *store.RefreshOptions) ([]store.SnapActionResult, []store.AssertionResult, error) {
@@ -179,6 +282,35 @@ func (s *c14Store) SnapAction(ctx context.Context, currentSnaps []*store.Current
 	for _, r := range res {
 		if r.Info != nil && r.Info.SnapName() == c14Snapd {
 			r.Info.Version = c14SnapdVersion(r.Info.Revision)
+		}
+	}
+	if len(s.noUpdate) > 0 {
+		// answer as the fake store does for a snap that is up to date: no result + a per-snap refresh error
+		var kept []store.SnapActionResult
+		var current []string
+		for _, r := range res {
+			if r.Info != nil && s.noUpdate[r.Info.InstanceName()] {
+				current = append(current, r.Info.InstanceName())
+				continue
+			}
+			kept = append(kept, r)
+		}
+		if len(current) > 0 {
+			saErr, _ := err.(*store.SnapActionError)
+			if err != nil && saErr == nil {
+				return res, ares, err
+			}
+			if saErr == nil {
+				saErr = &store.SnapActionError{}
+			}
+			if saErr.Refresh == nil {
+				saErr.Refresh = map[string]error{}
+			}
+			for _, n := range current {
+				saErr.Refresh[n] = store.ErrNoUpdateAvailable
+			}
+			saErr.NoResults = false
+			return kept, ares, saErr
 		}
 	}
 	return res, ares, err
@@ -200,6 +332,8 @@ type c14World struct {
 	changes  []c14Chg
 	menu     map[string]c14Op
 	requests int // requests issued on this fixture
+	decl     map[string]map[string]string // what the snap-declarations say right now (read through snapstate.AutoAliases)
+	preDl    []*state.TaskSet             // pre-download task sets returned by the last auto-refresh
 	// set by a stale-scenario callback
 	hookSnapshot *c14Snapshot
 	hookObs      *c14Obs
@@ -296,6 +430,15 @@ func c14New(c *C, menu map[string]c14Op) *c14World {
 		return info, nil
 	}))
 	w.store = &c14Store{fakeStore: w.fakeStore}
+	// the fixture's AutoAliases knows no aliases; ours reads the world's declaration table (TearDownTest resets the hook)
+	w.decl = c14StateAuto
+	snapstate.AutoAliases = func(_ *state.State, info *snap.Info) (map[string]string, error) {
+		m := map[string]string{}
+		for a, app := range w.decl[info.InstanceName()] {
+			m[a] = app
+		}
+		return m, nil
+	}
 	w.st.Lock()
 	defer w.st.Unlock()
 	snapstate.ReplaceStore(w.st, w.store)
@@ -308,7 +451,7 @@ func c14New(c *C, menu map[string]c14Op) *c14World {
 		Current:         snap.R(7),
 		SnapType:        "app",
 		TrackingChannel: "latest/stable",
-		Aliases:         map[string]*snapstate.AliasTarget{"alias0": {Manual: "cmd1"}},
+		Aliases:         map[string]*snapstate.AliasTarget{"alias0": {Manual: "cmd1"}, "a-auto": {Auto: c14StateAuto[c14A]["a-auto"]}},
 	})
 	snapstate.Set(w.st, c14B, &snapstate.SnapState{
 		Active: true,
@@ -318,14 +461,17 @@ func c14New(c *C, menu map[string]c14Op) *c14World {
 		Current:         snap.R(3),
 		SnapType:        "app",
 		TrackingChannel: "latest/stable",
+		Aliases:         map[string]*snapstate.AliasTarget{"b-auto": {Auto: c14StateAuto[c14B]["b-auto"]}},
 	})
 	snapstate.Set(w.st, c14I, &snapstate.SnapState{
 		Active: false,
 		Sequence: snapstatetest.NewSequenceFromSnapSideInfos([]*snap.SideInfo{
-			{RealName: c14I, Revision: snap.R(2)},
+			{RealName: c14I, SnapID: "other-snap-id", Revision: snap.R(2)}, // the fake store never has a newer revision for this id
 		}),
-		Current:  snap.R(2),
-		SnapType: "app",
+		Current:         snap.R(2),
+		SnapType:        "app",
+		TrackingChannel: "latest/stable",
+		Aliases:         map[string]*snapstate.AliasTarget{"i-auto": {Auto: c14StateAuto[c14I]["i-auto"]}},
 	})
 	snapstate.Set(w.st, c14Snapd, &snapstate.SnapState{
 		Active: true,
@@ -620,6 +766,10 @@ func c14One(ts *state.TaskSet, err error) ([]*state.TaskSet, error) {
 	return []*state.TaskSet{ts}, nil
 }
 
+func c14Names(tss []*state.TaskSet, err error) ([]string, []*state.TaskSet, error) {
+	return nil, tss, err
+}
+
 // staleHook builds the callback the store wrapper runs (once) while the request has the state unlocked.
 func (w *c14World) staleHook(what string) func() {
 	return func() {
@@ -662,12 +812,37 @@ func (w *c14World) staleHook(what string) func() {
 	}
 }
 
-// issue calls the request function (state locked).
-func (w *c14World) issue(op c14Op) ([]*state.TaskSet, error) {
+// issue calls the request function (state locked). names is what the request function reports as the snaps it
+// operates on (nil for the functions that do not report any).
+func (w *c14World) issue(op c14Op) (names []string, tss []*state.TaskSet, err error) {
 	st := w.st
 	uid := w.user.ID
 	w.requests++
+	w.preDl = nil
 	name := op.Name
+	if i := strings.Index(name, "@"); i >= 0 {
+		name = name[:i]
+		sc, ok := c14Scenes[op.Scene]
+		if !ok || name+"@"+op.Scene != op.Name {
+			eng.HarnessError("%s: unknown scene", op.Name)
+		}
+		decl := map[string]map[string]string{}
+		for n, m := range c14StateAuto {
+			decl[n] = m
+		}
+		for n, m := range sc.Decl {
+			decl[n] = m
+		}
+		w.decl = decl
+		w.store.noUpdate = map[string]bool{}
+		for _, n := range sc.NoUpdate {
+			w.store.noUpdate[n] = true
+		}
+		defer func() {
+			w.decl = c14StateAuto
+			w.store.noUpdate = nil
+		}()
+	}
 	if i := strings.Index(name, "/stale:"); i >= 0 {
 		name = name[:i]
 		w.store.hook = w.staleHook(op.Stale)
@@ -679,71 +854,76 @@ func (w *c14World) issue(op c14Op) ([]*state.TaskSet, error) {
 	}
 	switch name {
 	case "update(A)":
-		return c14One(snapstate.Update(st, c14A, nil, uid, snapstate.Flags{}))
+		return c14Names(c14One(snapstate.Update(st, c14A, nil, uid, snapstate.Flags{})))
 	case "revert(A)":
-		return c14One(snapstate.Revert(st, c14A, snapstate.Flags{}, ""))
+		return c14Names(c14One(snapstate.Revert(st, c14A, snapstate.Flags{}, "")))
 	case "remove(A)":
-		return c14One(snapstate.Remove(st, c14A, snap.R(0), nil))
+		return c14Names(c14One(snapstate.Remove(st, c14A, snap.R(0), nil)))
 	case "remove-revision(A,5)":
-		return c14One(snapstate.Remove(st, c14A, snap.R(5), nil))
+		return c14Names(c14One(snapstate.Remove(st, c14A, snap.R(5), nil)))
 	case "disable(A)":
-		return c14One(snapstate.Disable(st, c14A))
+		return c14Names(c14One(snapstate.Disable(st, c14A)))
 	case "switch(A)":
-		return c14One(snapstate.Switch(st, c14A, &snapstate.RevisionOptions{Channel: "some-channel"}))
+		return c14Names(c14One(snapstate.Switch(st, c14A, &snapstate.RevisionOptions{Channel: "some-channel"})))
 	case "alias(A)":
-		return c14One(snapstate.Alias(st, c14A, "cmd1", "alias1"))
+		return c14Names(c14One(snapstate.Alias(st, c14A, "cmd1", "alias1")))
 	case "unalias-all(A)":
-		return c14One(snapstate.DisableAllAliases(st, c14A))
+		return c14Names(c14One(snapstate.DisableAllAliases(st, c14A)))
 	case "unalias(alias0)":
 		ts, _, err := snapstate.RemoveManualAlias(st, "alias0")
-		return c14One(ts, err)
+		return c14Names(c14One(ts, err))
 	case "prefer(A)":
-		return c14One(snapstate.Prefer(st, c14A))
+		return c14Names(c14One(snapstate.Prefer(st, c14A)))
 	case "update(B)":
-		return c14One(snapstate.Update(st, c14B, nil, uid, snapstate.Flags{}))
+		return c14Names(c14One(snapstate.Update(st, c14B, nil, uid, snapstate.Flags{})))
 	case "remove(B)":
-		return c14One(snapstate.Remove(st, c14B, snap.R(0), nil))
+		return c14Names(c14One(snapstate.Remove(st, c14B, snap.R(0), nil)))
 	case "disable(B)":
-		return c14One(snapstate.Disable(st, c14B))
+		return c14Names(c14One(snapstate.Disable(st, c14B)))
 	case "enable(I)":
-		return c14One(snapstate.Enable(st, c14I))
+		return c14Names(c14One(snapstate.Enable(st, c14I)))
 	case "remove(I)":
-		return c14One(snapstate.Remove(st, c14I, snap.R(0), nil))
+		return c14Names(c14One(snapstate.Remove(st, c14I, snap.R(0), nil)))
 	case "install(C)":
-		return c14One(snapstate.Install(context.Background(), st, c14C, nil, uid, snapstate.Flags{}))
+		return c14Names(c14One(snapstate.Install(context.Background(), st, c14C, nil, uid, snapstate.Flags{})))
 	case "install-many(C,D)":
-		_, tss, err := snapstate.InstallMany(st, []string{c14C, c14D}, nil, uid, nil)
-		return tss, err
+		return snapstate.InstallMany(st, []string{c14C, c14D}, nil, uid, nil)
 	case "update-many(A,B)":
-		_, tss, err := snapstate.UpdateMany(context.Background(), st, []string{c14A, c14B}, nil, uid, nil)
-		return tss, err
+		return snapstate.UpdateMany(context.Background(), st, []string{c14A, c14B}, nil, uid, nil)
 	case "remove-many(A,B)":
-		_, tss, err := snapstate.RemoveMany(st, []string{c14A, c14B}, nil)
-		return tss, err
+		return snapstate.RemoveMany(st, []string{c14A, c14B}, nil)
 	case "refresh-all":
-		_, tss, err := snapstate.UpdateMany(context.Background(), st, nil, nil, uid, nil)
-		return tss, err
+		return snapstate.UpdateMany(context.Background(), st, nil, nil, uid, nil)
+	case "auto-refresh":
+		// the entry point of the auto-refresh manager (launchAutoRefresh); gate-auto-refresh-hook is off, so this is
+		// a refresh of all snaps with Flags.IsAutoRefresh
+		names, uts, err := snapstate.AutoRefresh(context.Background(), st)
+		if err != nil || uts == nil {
+			return nil, nil, err
+		}
+		w.preDl = uts.PreDownload
+		return names, uts.Refresh, nil
 	case "connect(A,B)":
-		return c14One(ifacestate.Connect(st, c14A, "plug", c14B, "slot"))
+		return c14Names(c14One(ifacestate.Connect(st, c14A, "plug", c14B, "slot")))
 	case "disconnect(A,B)":
-		return c14One(ifacestate.Disconnect(st, w.connection()))
+		return c14Names(c14One(ifacestate.Disconnect(st, w.connection())))
 	case "update(snapd)":
-		return c14One(snapstate.Update(st, c14Snapd, nil, uid, snapstate.Flags{}))
+		return c14Names(c14One(snapstate.Update(st, c14Snapd, nil, uid, snapstate.Flags{})))
 	case "downgrade(snapd)":
-		return c14One(snapstate.Update(st, c14Snapd, &snapstate.RevisionOptions{Revision: snap.R(1)}, uid, snapstate.Flags{}))
+		return c14Names(c14One(snapstate.Update(st, c14Snapd, &snapstate.RevisionOptions{Revision: snap.R(1)}, uid, snapstate.Flags{})))
 	case "revert(snapd)":
-		return c14One(snapstate.Revert(st, c14Snapd, snapstate.Flags{}, ""))
+		return c14Names(c14One(snapstate.Revert(st, c14Snapd, snapstate.Flags{}, "")))
 	}
 	if strings.HasPrefix(name, "exclusive(") {
 		// what devicestate.Remodel / CreateRecoverySystem / RemoveRecoverySystem do before they build their change
 		kind := strings.TrimSuffix(strings.TrimPrefix(name, "exclusive("), ")")
 		if err := snapstate.CheckChangeConflictRunExclusively(st, kind); err != nil {
-			return nil, err
+			return nil, nil, err
 		}
-		return []*state.TaskSet{state.NewTaskSet(st.NewTask("c14-"+kind+"-step1", "..."), st.NewTask("c14-"+kind+"-step2", "..."))}, nil
+		return nil, []*state.TaskSet{state.NewTaskSet(st.NewTask("c14-"+kind+"-step1", "..."), st.NewTask("c14-"+kind+"-step2", "..."))}, nil
 	}
 	eng.HarnessError("unknown request %q", op.Name)
-	return nil, nil
+	return nil, nil, nil
 }
 
 // pre creates a pre-existing change of the given kind (state locked).
@@ -859,6 +1039,10 @@ type c14Outcome struct {
 	Mismatch  string      `json:"model_mismatch,omitempty"` // disagreement with the model that is not a violation of the statement
 	Problems  []c14Problem `json:"problems,omitempty"`
 	Unlinked  int         `json:"unlinked_tasks_left,omitempty"`
+	Reported  []string    `json:"reported_snaps,omitempty"`  // the names the request function returned
+	NewTasks  map[string][]string `json:"new_tasks,omitempty"` // task kind -> snaps the tasks of the new change refer to
+	PreDownloads int      `json:"pre_download_tasksets,omitempty"`
+	TasksDropped int      `json:"tasks_not_put_in_a_change,omitempty"` // auto-refresh with an empty list of updated snaps
 	NonTrivial bool       `json:"nontrivial,omitempty"`
 }
 
@@ -934,6 +1118,15 @@ func c14Invariant(o c14Obs) (snapName, decoding string, chgs []string) {
 	return "", "", nil
 }
 
+func c14TaskKinds(chg *state.Change) []string {
+	var l []string
+	for _, t := range chg.Tasks() {
+		l = append(l, t.Kind())
+	}
+	sort.Strings(l)
+	return l
+}
+
 func (w *c14World) opOf(id string) string {
 	for _, c := range w.changes {
 		if c.ID == id {
@@ -971,7 +1164,7 @@ func (w *c14World) apply(s c14Step) c14Outcome {
 	before := w.snapshot()
 	obs := out.Before
 	w.hookSnapshot, w.hookObs = nil, nil
-	tss, err := w.issue(op)
+	names, tss, err := w.issue(op)
 	if w.hookSnapshot != nil {
 		// the world as it was when the request got the state back
 		before, obs = *w.hookSnapshot, *w.hookObs
@@ -997,6 +1190,32 @@ func (w *c14World) apply(s c14Step) c14Outcome {
 	withOp := "-"
 	if with != nil {
 		withOp = w.opOf(with.ID)
+	}
+	// the snaps that had an unfinished non-exempt change operating on them when the request was decided (either decoding)
+	busy := map[string]*c14ChgObs{}
+	for i, c := range obs.Unready {
+		if c.Exempt {
+			continue
+		}
+		for _, l := range [][]string{c.Own, c.Impl} {
+			for _, n := range l {
+				if busy[n] == nil {
+					busy[n] = &obs.Unready[i]
+				}
+			}
+		}
+	}
+	out.Reported = append([]string(nil), names...)
+	sort.Strings(out.Reported)
+	// an accepted request must not report a snap as one it operates on (updated/installed/removed names of the
+	// *Many functions and of AutoRefresh) while another unfinished change operates on that snap
+	checkReported := func() {
+		for _, n := range out.Reported {
+			if c := busy[n]; c != nil && len(out.Problems) == 0 {
+				problem(fmt.Sprintf("reported-busy-snap|%s|%s|while|%s/%s", op.Name, n, w.opOf(c.ID), c14Describe(c)),
+					"%s reports %q among the snaps it operates on %v although change %s (%s, %s, from %s) operating on %v is in progress", op.Name, n, out.Reported, c.ID, c.Kind, c.Status, w.opOf(c.ID), c.Own)
+			}
+		}
 	}
 	if err != nil {
 		out.Got = "rejected"
@@ -1027,11 +1246,28 @@ func (w *c14World) apply(s c14Step) c14Outcome {
 		return out
 	}
 	// accepted
+	if len(w.preDl) > 0 {
+		// what launchAutoRefresh does first (createPreDownloadChange): one pre-download change for all the snaps that
+		// cannot be refreshed right now because their apps are running. (No app runs on this fixture: not expected.)
+		pre := w.st.NewChange("pre-download", op.Name+": pre-download")
+		for _, ts := range w.preDl {
+			pre.AddAll(ts)
+		}
+		w.changes = append(w.changes, c14Chg{ID: pre.ID(), Op: op.Name + "#pre-download"})
+		out.PreDownloads = len(w.preDl)
+	}
+	if ntasks > 0 && op.Kind == "auto-refresh" && len(names) == 0 {
+		// launchAutoRefresh: an empty list of updated snaps gives an empty summary, "all snaps are up-to-date", and no
+		// change (the tasks stay unlinked)
+		out.TasksDropped = ntasks
+		ntasks = 0
+	}
 	if ntasks == 0 {
 		out.Got = "accepted-empty" // nothing to do (refresh-all with everything busy): the API creates no change
 		if class != "" && !op.All {
 			out.Mismatch = fmt.Sprintf("%s returned neither tasks nor an error", op.Name)
 		}
+		checkReported()
 		out.After = w.observe()
 		return out
 	}
@@ -1054,6 +1290,13 @@ func (w *c14World) apply(s c14Step) c14Outcome {
 	}
 	switch class {
 	case "exclusive":
+		if op.All && len(mine.Own)+len(mine.Impl) == 0 {
+			// one canonical key for "a refresh of all snaps skipped every snap and still came back with tasks"
+			problem("started-during-exclusive|refresh-of-all-snaps|change-refers-to-no-snap",
+				"%s returned %d task(s) %v that refer to no snap, and the API layer started a %s change with them, while the exclusive change %s (%s, %s, from %s) is in progress",
+				op.Name, ntasks, c14TaskKinds(chg), op.Kind, with.ID, with.Kind, with.Status, withOp)
+			break
+		}
 		problem(fmt.Sprintf("started-during-exclusive|%s|while|%s/%s", op.Name, withOp, c14Describe(with)),
 			"%s was accepted (%d tasks, affecting %v) while the exclusive change %s (%s, %s) is in progress", op.Name, ntasks, mine.Own, with.ID, with.Kind, with.Status)
 	case "overlap":
@@ -1064,6 +1307,27 @@ func (w *c14World) apply(s c14Step) c14Outcome {
 	case "stale":
 		problem("stale-accepted|"+op.Name, "%s was accepted although the snap record changed while the store was being asked", op.Name)
 	}
+	// every single task of the new change: none may refer (snap-setup, snap-setup-task, plug/slot, hook-setup, snaps;
+	// by either decoding) to a snap that another unfinished non-exempt change was operating on when the request was decided
+	out.NewTasks = map[string][]string{}
+	for _, t := range chg.Tasks() {
+		impl, _ := snapstate.SnapsAffectedByTask(t)
+		refs := map[string]bool{}
+		for _, n := range impl {
+			refs[n] = true
+		}
+		for _, n := range c14OwnAffected(w.st, t) {
+			refs[n] = true
+		}
+		for _, n := range c14Sorted(refs) {
+			out.NewTasks[t.Kind()] = append(out.NewTasks[t.Kind()], n)
+			if c := busy[n]; c != nil && len(out.Problems) == 0 {
+				problem(fmt.Sprintf("task-on-busy-snap|%s|%s|%s|while|%s/%s", op.Name, t.Kind(), n, w.opOf(c.ID), c14Describe(c)),
+					"%s was accepted and its task %q (%s) refers to snap %q while change %s (%s, %s, from %s) operating on %v is in progress", op.Name, t.Kind(), t.Summary(), n, c.ID, c.Kind, c.Status, w.opOf(c.ID), c.Own)
+			}
+		}
+	}
+	checkReported()
 	// the invariant of the statement, on the state itself (covers requests whose tasks touch more than their targets,
 	// refresh-all, and the implementation's own decoding of affected snaps)
 	if name, dec, chgs := c14Invariant(out.After); name != "" && len(out.Problems) == 0 {
@@ -1267,6 +1531,40 @@ func (x *c14Explorer) step(from *c14State, s c14Step) (*c14State, c14Outcome) {
 				r.Info(fmt.Sprintf("exclusive_request_on_busy_system: %s while %s in progress", s.Op, strings.Join(kinds, "+")), out.Got)
 			}
 		}
+		if out.Got == "accepted" && len(out.NewTasks) == 0 && !x.menu[s.Op].Exclusive {
+			// a change was started whose tasks refer to no snap at all
+			r.Add("accepted_requests_whose_change_refers_to_no_snap", 1)
+			r.Distinct("change_without_snaps", s.Op)
+		}
+		if op := x.menu[s.Op]; op.Scene != "" {
+			// vacuity guards of the automatic-alias dimension: which alias tasks were created for which snaps, and how
+			// often a refresh of all snaps met a snap that has an alias delta and an unfinished change (and left it alone)
+			for _, kind := range []string{"refresh-aliases", "prune-auto-aliases"} {
+				if l := out.NewTasks[kind]; len(l) > 0 {
+					r.Distinct("alias_tasks", fmt.Sprintf("%s:%s:%s", s.Op, kind, strings.Join(l, ",")))
+				}
+			}
+			if op.All && out.Got != "rejected" {
+				for _, n := range []string{c14A, c14B, c14I} {
+					gained, lost := c14AliasDelta(n, op.Scene)
+					if len(gained)+len(lost) == 0 {
+						continue
+					}
+					isBusy := false
+					for _, c := range out.Before.Unready {
+						if _, hit := c14Intersects([]string{n}, c.Own); hit && !c.Exempt {
+							isBusy = true
+						}
+					}
+					_, r1 := c14Intersects([]string{n}, out.NewTasks["refresh-aliases"])
+					_, r2 := c14Intersects([]string{n}, out.NewTasks["prune-auto-aliases"])
+					if isBusy && !r1 && !r2 {
+						r.Add("refresh_all_left_alone_a_busy_snap_with_alias_delta", 1)
+						r.Distinct("busy_alias_delta_snap", fmt.Sprintf("%s:%s", s.Op, n))
+					}
+				}
+			}
+		}
 		if out.Got == "rejected" {
 			r.Distinct("error_type", out.ErrType)
 			if out.Unlinked > 0 {
@@ -1307,11 +1605,13 @@ func (x *c14Explorer) step(from *c14State, s c14Step) (*c14State, c14Outcome) {
 			continue
 		}
 		x.reported[p.Key] = true
-		if x.stopFile != "" {
+		o := out
+		nv := r.NumViolations()
+		r.Violation(p.Key, p.Msg+" [path: "+c14PathString(np)+"]", c14Case{Path: np, Text: c14PathString(np), Outcome: &o})
+		if x.stopFile != "" && r.NumViolations() > nv {
+			// (a key listed in known-findings.txt does not stop the exploration)
 			os.WriteFile(x.stopFile, []byte(p.Key+"\n"), 0644)
 		}
-		o := out
-		r.Violation(p.Key, p.Msg+" [path: "+c14PathString(np)+"]", c14Case{Path: np, Text: c14PathString(np), Outcome: &o})
 	}
 	return ns, out
 }
